@@ -327,6 +327,12 @@ func (g *genState) genC02() {
 			g.decodeAll("len2", ops, []byte{byte(a), byte(b)})
 		}
 	}
+	// empty containers in every table form, alone and behind prefixes (by-tag lookups in an empty table)
+	for _, c := range []byte{70, 71, 80, 81} {
+		for _, p := range [][]byte{nil, {0xff}, {1, 2, 3, 80}, {0, 0, 81}} {
+			g.decodeAll("empty-container", []string{"parse", "typesize", "walk", "open", "ltab", "mtab", "parselist", "parsemsg"}, append(append([]byte{}, p...), 0, 0, c))
+		}
+	}
 	if g.thor {
 		// all 3-byte inputs ending in a type code, all ops that can accept that code
 		for a := 0; a < 256; a++ {
